@@ -1069,6 +1069,9 @@ class Wtp:
                 included_map[used_template].add(page.title)
             if pre_expand:
                 self.set_template_pre_expand(page.title)
+            if pre_expand or page.need_pre_expand:
+                # templates marked by an earlier analysis (or when added)
+                # propagate to templates added since
                 expand_stack.append(page)
 
         # XXX consider encoding template bodies here (also need to save related
